@@ -13,6 +13,7 @@ the implementation it is sampled by the harness (bit-identical operands after ev
 is proved instead: the result is a function of the operands' grids and values only, lives on the
 left operand's grid, keeps its class and labels.
 -/
+import FDAModel.Generated.Dispatch
 import FDAProofs.Lemmas.Arith
 
 namespace C12
@@ -1135,5 +1136,34 @@ theorem mv_eq_spec : ∀ cs ds : List (Data ℚ), mvEq cs ds = true ↔
 
 example : mvAdd [.dense [[0, 1]] [[1, 2]]] [.dense [[0, 1]] [[3, 4]]] = .ok [.dense [[0, 1]] [[1, 2]], .dense [[0, 1]] [[3, 4]]] := by
   decide
+
+
+/-! ## The dispatch read from the source is the guard of the model -/
+
+/-- For every operator method of `GridFunctionalData` (`__add__ … __floordiv__`, and the reflected ones) and every
+operand kind of the zoo, the routing the translator read from the source (`Generated/Dispatch.lean`, re-generated on
+every run: which `isinstance` branch applies, which of `_perform_computation` / `_perform_computation_number` is
+called with which NumPy function, what is raised otherwise, which reflected methods exist and where they delegate)
+is the guard of the model. -/
+theorem dispatch_src_eq_model (name : FDA.PyDispatch.OpName) (o : FDA.PyDispatch.Operand) :
+    FDA.PyDispatch.resolve FDA.Generated.Dispatch.srcMethod name o = FDA.PyDispatch.modelRoute name o := by
+  cases name <;> cases o <;> first
+    | rfl
+    | (rename_i k; cases k <;> rfl)
+
+/-- … and that guard is the one `scalarop` / `rscalarop` / `binop` apply: a scalar operand reaches the scalar
+computation iff its kind is accepted, otherwise the operation is a `TypeError`; functional data always reach the
+compatibility-checked computation; of the reflected methods only `__rmul__` exists. -/
+theorem model_route_is_guard (op : Op) (a : Data ℚ) (k : SKind) (c : ℚ) :
+    (FDA.PyDispatch.modelRoute (match op with | .add => .add | .sub => .sub | .mul => .mul | .div => .truediv | .floordiv => .floordiv)
+        (.scalar k) = some (.number (FDA.PyDispatch.ufuncOf op)) ↔ scalarop op a k c = .ok (mapData (fun x => op.ap x c) a)) ∧
+    (FDA.PyDispatch.modelRoute (match op with | .add => .add | .sub => .sub | .mul => .mul | .div => .truediv | .floordiv => .floordiv)
+        (.scalar k) = some (.raise .typeError) ↔ scalarop op a k c = .error .typeError) ∧
+    (∀ name : FDA.PyDispatch.OpName, name.isReflected = true → name ≠ .rmul → FDA.PyDispatch.modelRoute name (.scalar k) = none) := by
+  refine ⟨?_, ?_, ?_⟩
+  · cases op <;> cases hk : k.accepted <;> simp [FDA.PyDispatch.modelRoute, FDA.PyDispatch.OpName.isReflected, FDA.PyDispatch.OpName.op, scalarop, hk]
+  · cases op <;> cases hk : k.accepted <;> simp [FDA.PyDispatch.modelRoute, FDA.PyDispatch.OpName.isReflected, FDA.PyDispatch.OpName.op, scalarop, hk]
+  · intro name h1 h2
+    cases name <;> simp_all [FDA.PyDispatch.modelRoute, FDA.PyDispatch.OpName.isReflected]
 
 end C12
